@@ -15,6 +15,7 @@ import regdef
 
 IMM = re.compile(r'^(0x[0-9a-f]+|-?\d+)$')
 MAXMOD = 256
+NBUF_TAGS = {'ARRAY[]', 'SRCARR[]', 'DESTARR[]', 'SRC', 'DEST', 'BUF', 'DST'}
 EMPTY = frozenset()
 
 
@@ -48,6 +49,7 @@ class B:
 
 
 TOPB = B()
+_TABLES = {}
 
 
 def modof(c, k, nmod):
@@ -116,7 +118,7 @@ def join_b(x, y, nlo, widen=False, nx=None, ny=None):
 
 
 class State:
-    __slots__ = ('r', 'nlo', 'nhi', 'nmod', 'fl', 'slots', 'rel', 'gm', 'km')
+    __slots__ = ('r', 'nlo', 'nhi', 'nmod', 'fl', 'slots', 'rel', 'gm', 'km', 'ptr')
 
     def __init__(self):
         self.r = {}
@@ -128,22 +130,24 @@ class State:
         self.rel = {}      # (r1, r2) -> (c, k):  r1 + r2 == c + k*N
         self.gm = {}       # gpr -> ('pow2' | 'low', count register): 1 << count, or the count low bits set
         self.km = {}       # k register -> count register: mask of `count` low bits
+        self.ptr = {}      # register -> True: the register is a pointer into a length-bounded buffer and r[register] bounds its OFFSET from the buffer start
 
     def copy(self):
         s = State()
         s.r = dict(self.r)
         s.nlo, s.nhi, s.nmod, s.fl = self.nlo, self.nhi, self.nmod, self.fl
         s.slots = dict(self.slots)
-        s.rel, s.gm, s.km = dict(self.rel), dict(self.gm), dict(self.km)
+        s.rel, s.gm, s.km, s.ptr = dict(self.rel), dict(self.gm), dict(self.km), dict(self.ptr)
         return s
 
     def key(self):
-        return (tuple(sorted(self.r.items(), key=lambda kv: kv[0])), self.nlo, self.nhi, self.nmod, self.fl, tuple(sorted(self.slots.items())), tuple(sorted(self.rel.items())), tuple(sorted(self.gm.items())), tuple(sorted(self.km.items())))
+        return (tuple(sorted(self.r.items(), key=lambda kv: kv[0])), self.nlo, self.nhi, self.nmod, self.fl, tuple(sorted(self.slots.items())), tuple(sorted(self.rel.items())), tuple(sorted(self.gm.items())), tuple(sorted(self.km.items())), tuple(sorted(self.ptr.items())))
 
 
 class Bounds:
-    def __init__(self, u, f, flow, count_reg, cut=()):
+    def __init__(self, u, f, flow, count_reg, cut=(), ptr_args=()):
         self.u, self.f, self.fl, self.count_reg = u, f, flow, count_reg
+        self.ptr_args = tuple(ptr_args)      # argument registers that point to the start of a len-byte buffer
         self.cut = set(cut)        # instructions whose successors are not followed (analysis of the paths that avoid them)
         self.IN = {}
         self.visits = {}
@@ -161,8 +165,10 @@ class Bounds:
         e = v.exact()
         return EX(e[0], e[1], st.nmod) if e is not None else v
 
-    def setr(self, st, reg, val, shift=None):
+    def setr(self, st, reg, val, shift=None, keepptr=False):
         """shift: the new value is the old one plus this constant (relations with other registers are adjusted instead of dropped)"""
+        if not keepptr:
+            st.ptr.pop(reg, None)
         if val == TOPB:
             st.r.pop(reg, None)
         else:
@@ -200,6 +206,26 @@ class Bounds:
             return x
         m = min(MAXMOD, x.mod[0] * (s & -s)) if s > 0 else 1
         return B(frozenset((c * s, k * s) for c, k in x.lo), frozenset((c * s, k * s) for c, k in x.hi), (m, (x.mod[1] * s) % m) if m > 1 else (1, 0)) if s > 0 else TOPB
+
+    def lowmask_table(self, sym, esz):
+        """number of leading entries of the constant table `sym` that equal (1 << i) - 1"""
+        key = (sym, esz)
+        if key not in _TABLES:
+            n = 0
+            y = self.u.elf.syms.get(sym)
+            sec = self.u.elf.section(y.sec) if y is not None and y.sec else None
+            if sec is not None and sec['type'] != 8:
+                data = self.u.elf.d[sec['off'] + y.value: sec['off'] + min(sec['size'], y.value + esz * (8 * esz + 1))]
+                while (n + 1) * esz <= len(data) and int.from_bytes(data[n * esz:(n + 1) * esz], 'little') == (1 << n) - 1:
+                    n += 1
+            _TABLES[key] = n
+        return _TABLES[key]
+
+    def buffer_tag(self, fv):
+        t = fv[1]
+        if isinstance(t, tuple):
+            return (t[1] + '[]') in NBUF_TAGS
+        return t in NBUF_TAGS
 
     # ---------------------------------------------------------------- refinement
     def learn_ge(self, st, big, small):
@@ -421,6 +447,18 @@ class Bounds:
             st.km.pop(ops[0], None)
             if src in REG64 and st.gm.get(REG64[src][0], (None,))[0] == 'low':
                 st.km[ops[0]] = st.gm[REG64[src][0]][1]
+            elif is_mem(src):
+                # mask fetched from a constant table indexed by a count: accepted when the table really holds (1 << i) - 1 at entry i
+                m = parse_mem(src)
+                fst = self.fl.IN.get(i.addr)
+                esz = {'kmovb': 1, 'kmovw': 2, 'kmovd': 4, 'kmovq': 8}.get(mn)
+                if fst is not None and esz and m['index'] in REG64 and (m['scale'] or 1) == esz and m['base'] in REG64 and not m['disp']:
+                    bv = fst.get(REG64[m['base']][0])
+                    if bv is not None and bv[0] == 'P' and isinstance(bv[1], str) and bv[1].startswith('GLOBAL:') and bv[2] == (0, 0):
+                        n = self.lowmask_table(bv[1][7:], esz)
+                        ib = st.r.get(REG64[m['index']][0], TOPB)
+                        if n and any(u_[1] == 0 and u_[0] < n for u_ in ib.hi) and any(l[1] == 0 and l[0] >= 0 or (l[1] > 0 and st.nlo is not None and l[0] + l[1] * st.nlo >= 0) for l in ib.lo):
+                            st.km[ops[0]] = REG64[m['index']][0]
             return
         if ops and re.match(r'^k[0-7]$', ops[0]):
             st.km.pop(ops[0], None)
@@ -446,6 +484,9 @@ class Bounds:
                 m = parse_mem(ops[0])
                 if m['base'] == 'rsp' and not m['index']:
                     st.slots[m['disp'] or 0] = st.r.get(REG64[src][0], TOPB)
+                    st.slots.pop(('#p', m['disp'] or 0), None)
+                    if REG64[src][0] in st.ptr:
+                        st.slots[('#p', m['disp'] or 0)] = B(frozenset([(1, 0)]), frozenset([(1, 0)]), (1, 0))
             elif ops and is_mem(ops[0]) and parse_mem(ops[0])['base'] == 'rsp':
                 st.slots.pop(parse_mem(ops[0])['disp'] or 0, None)
             if mn in ('push', 'pop', 'call'):
@@ -467,11 +508,24 @@ class Bounds:
             if is_mem(src):
                 m = parse_mem(src)
                 v = TOPB
+                isp = False
                 if m['base'] == 'rsp' and not m['index'] and mn == 'mov' and g[1] == 64:
                     v = st.slots.get(m['disp'] or 0, TOPB)
+                    isp = ('#p', m['disp'] or 0) in st.slots
+                elif mn == 'mov' and g[1] == 64:
+                    nx = self.fl.IN.get(i.end)
+                    fv = nx.get(d) if nx else None
+                    if fv is not None and fv[0] == 'P' and fv[2] == (0, 0) and self.buffer_tag(fv):
+                        v = EX(0, 0, st.nmod)
+                        isp = True
                 self.setr(st, d, v)
+                if isp:
+                    st.ptr[d] = True
             elif mn == 'mov' or (src in REG64 and REG64[src][1] >= 32):
+                sp = src in REG64 and REG64[src][1] == 64 and REG64[src][0] in st.ptr
                 self.setr(st, d, self.get(st, src))
+                if sp:
+                    st.ptr[d] = True
             else:
                 self.setr(st, d, TOPB)
             return
@@ -487,12 +541,22 @@ class Bounds:
             sh = None
             if m['base'] in REG64 and REG64[m['base']][0] == d and not m['index']:
                 sh = m['disp'] or 0
+            nptr = sum(1 for r in (m['base'], m['index']) if r in REG64 and REG64[r][0] in st.ptr)
+            okp = nptr == 1 and not (m['index'] in REG64 and REG64[m['index']][0] in st.ptr and (m['scale'] or 1) != 1)
             self.setr(st, d, v, shift=sh)
+            if okp:
+                st.ptr[d] = True
             return
         if mn in ('add', 'sub') and len(ops) == 2 and not is_mem(src):
             gmold = st.gm.get(d)
             v = self.add(st, self.get(st, ops[0]), self.get(st, src), 1 if mn == 'add' else -1)
-            self.setr(st, d, v, shift=(imm(src) * (1 if mn == 'add' else -1)) if IMM.match(src) else None)
+            srcptr = src in REG64 and REG64[src][0] in st.ptr
+            dptr = d in st.ptr
+            self.setr(st, d, v, shift=(imm(src) * (1 if mn == 'add' else -1)) if IMM.match(src) else None, keepptr=dptr and not srcptr)
+            if mn == 'add' and srcptr and not dptr:
+                st.ptr[d] = True
+            if mn == 'sub' and srcptr and dptr:
+                st.ptr.pop(d, None)      # difference of two pointers: a scalar
             if gmold and gmold[0] == 'pow2' and mn == 'sub' and IMM.match(src) and imm(src) == 1:
                 st.gm[d] = ('low', gmold[1])
             st.fl = ('cmp', ('r', d), ('k', 0), frozenset([d])) if mn == 'sub' or True else None
@@ -500,7 +564,7 @@ class Bounds:
         if mn in ('inc', 'dec') and len(ops) == 1:
             gmold = st.gm.get(d)
             v = self.add(st, self.get(st, ops[0]), EX(1, 0, st.nmod), 1 if mn == 'inc' else -1)
-            self.setr(st, d, v, shift=1 if mn == 'inc' else -1)
+            self.setr(st, d, v, shift=1 if mn == 'inc' else -1, keepptr=True)
             if gmold and gmold[0] == 'pow2' and mn == 'dec':
                 st.gm[d] = ('low', gmold[1])
             st.fl = ('cmp', ('r', d), ('k', 0), frozenset([d]))
@@ -589,7 +653,32 @@ class Bounds:
         st0.nlo = 0            # lengths are non-negative (the properties quantify over len >= 0)
         if self.count_reg:
             st0.r[self.count_reg] = B(frozenset([(0, 1)]), frozenset([(0, 1)]), (1, 0))
+        for r in self.ptr_args:
+            st0.r[r] = EX(0, 0, (1, 0))
+            st0.ptr[r] = True
         self.IN = {f.entry: st0}
+        # loop back edges = edges to a node that is on the depth-first stack (retreating edges)
+        self.backedges = set()
+        color = {}
+        stack = [(f.entry, iter(u.succ(f, f.entry)))]
+        color[f.entry] = 1
+        while stack:
+            node, it_ = stack[-1]
+            adv = False
+            for nx in it_:
+                if nx not in f.aset:
+                    continue
+                c = color.get(nx, 0)
+                if c == 1:
+                    self.backedges.add((node, nx))
+                elif c == 0:
+                    color[nx] = 1
+                    stack.append((nx, iter(u.succ(f, nx))))
+                    adv = True
+                    break
+            if not adv:
+                color[node] = 2
+                stack.pop()
         work = [f.entry]
         it = 0
         while work:
@@ -617,17 +706,19 @@ class Bounds:
                 for n in ss:
                     succs.append((n, st))
             for n, s in succs:
-                self.merge(n, s, work)
+                self.merge(n, s, work, src=a)
         return self.IN
 
-    def merge(self, n, s, work):
+    def merge(self, n, s, work, src=None):
         if n not in self.IN:
             self.IN[n] = s
             work.append(n)
             return
         old = self.IN[n]
-        self.visits[n] = self.visits.get(n, 0) + 1
-        widen = self.visits[n] > 4
+        # widening only along backward edges (loops are backward jumps in the assembled code), counted per edge
+        back = (src, n) in self.backedges
+        self.visits[(src, n)] = self.visits.get((src, n), 0) + 1
+        widen = back and self.visits[(src, n)] > 4
         new = State()
         new.nlo = None if old.nlo is None or s.nlo is None else min(old.nlo, s.nlo)
         new.nhi = None if old.nhi is None or s.nhi is None else max(old.nhi, s.nhi)
@@ -668,6 +759,9 @@ class Bounds:
                 ss = (ex_s[r1][0] + ex_s[r2][0], ex_s[r1][1] + ex_s[r2][1])
                 if so == ss:
                     new.rel[(r1, r2)] = so
+        new.ptr = {k: True for k in old.ptr if k in s.ptr}
+        for k in [k for k in new.r if (k in old.ptr) != (k in s.ptr)]:
+            del new.r[k]          # a pointer offset on one side, a scalar on the other
         new.gm = {k: v for k, v in old.gm.items() if s.gm.get(k) == v}
         new.km = {k: v for k, v in old.km.items() if s.km.get(k) == v}
         if new.key() != old.key():
@@ -690,7 +784,12 @@ class Bounds:
             if r not in REG64:
                 return None
             v = fst.get(REG64[r][0])
-            if v is not None and v[0] == 'P':
+            if REG64[r][0] in st.ptr:
+                if ptr is not None or s != 1:
+                    return None
+                ptr = ('P', None, (0, 0))
+                parts.append(st.r.get(REG64[r][0], TOPB))
+            elif v is not None and v[0] == 'P':
                 if ptr is not None or s != 1 or v[2] is None or v[2][1] != 0:
                     return None
                 ptr = v
@@ -699,6 +798,10 @@ class Bounds:
         if ptr is None:
             return None
         off = EX((m['disp'] or 0) + ptr[2][0], 0, st.nmod)
+        regs2 = [REG64[r][0] for r in (m['base'], m['index']) if r in REG64]
+        if len(regs2) == 2 and (m['scale'] or 1) == 1 and tuple(sorted(regs2)) in st.rel and ptr[1] is None:
+            S = st.rel[tuple(sorted(regs2))]          # pointer offset + remaining length are tied together: the sum is exact
+            return self.add(st, off, EX(S[0], S[1], st.nmod)), st
         for p in parts:
             off = self.add(st, off, p)
         return off, st
@@ -722,12 +825,17 @@ class Bounds:
             idx = [REG64[x][0] for x in (m['base'], m['index']) if x in REG64 and fst.get(REG64[x][0], ('SC',))[0] != 'P']
             ptr = [fst.get(REG64[x][0]) for x in (m['base'], m['index']) if x in REG64 and fst.get(REG64[x][0], ('SC',))[0] == 'P']
             hi_ok = False
-            if elem == 1 and cnt and len(idx) == 1 and len(ptr) == 1 and (m['scale'] or 1) == 1 and ptr[0][2] is not None and ptr[0][2][1] == 0:
-                key = tuple(sorted((idx[0], cnt)))
-                S = st.rel.get(key)
-                if S is not None:
-                    c = (m['disp'] or 0) + ptr[0][2][0]
-                    hi_ok = le((S[0] + c, S[1]), length, st.nlo)
+            if elem == 1 and cnt:
+                if len(idx) == 1 and len(ptr) == 1 and (m['scale'] or 1) == 1 and ptr[0][2] is not None and ptr[0][2][1] == 0:
+                    S = st.rel.get(tuple(sorted((idx[0], cnt))))
+                    if S is not None:
+                        c = (m['disp'] or 0) + ptr[0][2][0]
+                        hi_ok = le((S[0] + c, S[1]), length, st.nlo)
+                pregs = [REG64[x][0] for x in (m['base'], m['index']) if x in REG64 and REG64[x][0] in st.ptr]
+                if not hi_ok and len(pregs) == 1 and not idx:
+                    S = st.rel.get(tuple(sorted((pregs[0], cnt))))
+                    if S is not None:
+                        hi_ok = le((S[0] + (m['disp'] or 0), S[1]), length, st.nlo)
                 cb = st.r.get(cnt, TOPB)
                 if not hi_ok and cb.hi:
                     hi_ok = any(le((u[0] + v[0], u[1] + v[1]), length, st.nlo) for u in off.hi for v in cb.hi)
@@ -737,15 +845,37 @@ class Bounds:
 
 
 # ------------------------------------------------------------------ the rule
-LEN_REG = {'raid_pq_gen': 'rsi', 'raid_pq_check': 'rsi', 'ec_dot_prod': 'rdi', 'ec_mad': 'rdi', 'ec_mul': 'rdi', 'mem_zero': 'rsi'}
-NBUF_TAGS = {'ARRAY[]', 'SRCARR[]', 'DESTARR[]', 'SRC', 'DEST', 'BUF'}
+LEN_REG = {'raid_pq_gen': 'rsi', 'raid_pq_check': 'rsi', 'ec_dot_prod': 'rdi', 'ec_mad': 'rdi', 'ec_mul': 'rdi', 'mem_zero': 'rsi',
+           'crc': 'rdx', 'crc_copy': 'rcx', 'adler': 'rdx'}
+LEN_REG_SYM = {r'^crc32_iscsi_': 'rsi'}      # crc32_iscsi(buffer, len, init)
+
+
+def len_reg(sym, fam):
+    for pat, r in LEN_REG_SYM.items():
+        if re.match(pat, sym):
+            return r
+    return LEN_REG[fam]
+NBUF_TAGS_OLD = {'ARRAY[]', 'SRCARR[]', 'DESTARR[]', 'SRC', 'DEST', 'BUF'}
 # kernels whose loops stay inside the abstract domain (index register + constant-offset base pointer, guards against len):
 # every access of these kernels is required to be proved.  The others use idioms the domain does not express; they are
 # listed with the reason and only reported as not decided.
 OUTSIDE = {
-    r'^gf_\dvect_mad_avx2_gfni$|^gf_vect_mad_avx2_gfni$': 'the tail loads and stores single bytes / words through a pointer advanced by data-dependent amounts (simd_load_avx2 / simd_store_avx2 macros); the 32-byte main loop of these kernels is proved, the tail is not',
+    r'^crc32_iscsi_0[01]$': 'a computed jump enters an unrolled block of crc32 instructions whose operands are addressed relative to three end pointers; the block count is a quotient of the length',
+    r'^adler32_': 'the block size is min(size, LIMIT) selected by cmova: the end pointer is bounded by a relation between two run-time registers',
+    r'^mem_zero_detect_avx2$': 'the loops count blocks (len >> 7, len >> 4) while the pointer advances by the block size: a multiplicative relation between two registers',
     r'^mem_zero_detect_avx512$': 'the first, alignment-dependent block is read through a k-mask whose bit count is min(64 - (src & 63), len): a relation between the address and the length',
 }
+# kernels that are analysed, whose vector loops must be proved, but whose byte-granular tails are outside the domain
+OUTSIDE_TAIL = {
+    r'^gf_\dvect_(mad|dot_prod)_avx2_gfni$|^gf_vect_(mad|dot_prod)_avx2_gfni$': 'the tail loads and stores single bytes / words through a pointer advanced by data-dependent amounts (simd_load_avx2 / simd_store_avx2 macros of include/memcpy.asm)',
+}
+
+
+def outside_tail(sym):
+    for pat, why in OUTSIDE_TAIL.items():
+        if re.match(pat, sym):
+            return why
+    return None
 
 
 def outside_reason(sym):
@@ -769,12 +899,14 @@ def check(rep, families, suffix, floor):
             continue
         why = outside_reason(sym)
         u, f = info['unit'], info['func']
-        if why and not re.search(r'mad_avx2_gfni$', sym):
+        if why:
             n_undecided += 1
             R.notes.append('%s: not decided (%s)' % (sym, why))
             continue
+        why = outside_tail(sym)
         R.instance()
-        bd = Bounds(u, f, info['flow'], LEN_REG[fam])
+        pargs = [r for r, v in info['fam']['args'].items() if v[0] == 'P' and isinstance(v[1], str) and v[1] in NBUF_TAGS and v[2] == (0, 0)]
+        bd = Bounds(u, f, info['flow'], len_reg(sym, fam), ptr_args=pargs)
         bd.run()
         nin = 0
         nskip = 0
@@ -789,8 +921,8 @@ def check(rep, families, suffix, floor):
                 nin += 1
                 R.ok(1)
                 continue
-            if why:
-                nskip += 1          # tail of a kernel whose main loop is inside the domain
+            if why and a.insn.line and a.insn.line[0].endswith('memcpy.asm'):
+                nskip += 1          # byte-granular tail macro of a kernel whose vector loop is inside the domain
                 continue
             off, nlo, nmod, lo_ok, hi_ok = d
             what = []
